@@ -116,11 +116,22 @@ def fix_op(a):
 
 
 def path_jobs(paths, prefix, battery):
+    """each TLC path in the four configurations; every fifth path with CSV-hostile strings"""
     jobs = []
     for i, ops in enumerate(paths):
+        hostile = i % 5 == 4 and not any(_uses_regex(a) for a in ops)
         for kind, ai in traces.CONFIGS:
-            jobs.append(("%s%d-%s%d" % (prefix, i, kind, ai), kind, ai, ops, battery, NTK, NFK))
+            jobs.append(("%s%d-%s%d" % (prefix, i, kind, ai), kind, ai, ops, battery if not hostile else [], NTK, NFK,
+                         {"theme": "csv-hostile"} if hostile else {}))
     return jobs
+
+
+def _uses_regex(a):
+    def rq(q):
+        if q["k"] in ("not", "and", "or"):
+            return rq(q["a"]) or ("b" in q and rq(q["b"]))
+        return q.get("op") in ("matches", "search")
+    return "q" in a and rq(a["q"])
 
 
 def describe_failure(tr, err):
